@@ -225,7 +225,7 @@ def gen_case(rng, allow_int=False, allow_remove=True, nops=None, big=1):
     removed = False
     nadd = 0
     for _ in range(nops):
-        kinds = ["add", "add", "update", "update", "addchar", "addchar", "delchar", "delchar"]
+        kinds = ["add", "add", "update", "update", "addchar", "addchar", "delchar", "delchar", "adddesc", "adddesc"]
         if allow_remove:
             kinds += ["remove", "remove"]
         k = rng.choice(kinds)
@@ -246,6 +246,13 @@ def gen_case(rng, allow_int=False, allow_remove=True, nops=None, big=1):
             cd = rand_cdef(rng, state)
             ops.append({"op": "addchar", "i": i, "char": cd})
             shapes[i]["chars"].append(dict(cd))
+        elif k == "adddesc":
+            cands = [i for i in range(n) if shapes[i]["chars"]]
+            if not cands:
+                ops.append({"op": "update", "i": rng.randrange(n)})
+                continue
+            i = rng.choice(cands)
+            ops.append({"op": "adddesc", "i": i, "j": rng.randrange(len(shapes[i]["chars"])), "desc": rand_ddef(rng)})
         elif k == "delchar":
             cands = [i for i in range(n) if shapes[i]["chars"]]
             if not cands:
@@ -277,6 +284,9 @@ def apply_op_shape(cur, op):
     elif o == "delchar" and op["i"] < len(cur) and op["j"] < len(cur[op["i"]]["chars"]):
         cur = [dict(s, chars=list(s["chars"])) for s in cur]
         del cur[op["i"]]["chars"][op["j"]]
+    elif o == "adddesc" and op["i"] < len(cur) and op["j"] < len(cur[op["i"]]["chars"]):
+        cur = [dict(s, chars=[dict(c, late=list(c.get("late", []))) for c in s["chars"]]) for s in cur]
+        cur[op["i"]]["chars"][op["j"]]["late"].append(op["desc"])
     elif o == "remove" and op["i"] < len(cur):
         return cur[:op["i"]] + cur[op["i"] + 1:], True
     return cur, False
@@ -356,7 +366,7 @@ def gen_hist(rng, allow_remove=True, nhops=None):
             hops.append({"h": "register", "i": i})
             regchars.append(pchars.pop(i)); npend -= 1; nreg += 1
         else:
-            ok = ["add"] + (["update", "addchar"] if nreg else []) + (["delchar"] if any(regchars) else []) \
+            ok = ["add"] + (["update", "addchar"] if nreg else []) + (["delchar", "adddesc", "adddesc"] if any(regchars) else []) \
                  + (["remove"] if (nreg and allow_remove) else [])
             o = rng.choice(ok)
             if o == "add":
@@ -367,6 +377,9 @@ def gen_hist(rng, allow_remove=True, nhops=None):
             elif o == "addchar":
                 i = rng.randrange(nreg)
                 hops.append({"h": "op", "op": {"op": "addchar", "i": i, "char": rand_cdef(rng, state)}}); regchars[i] += 1
+            elif o == "adddesc":
+                i = rng.choice([x for x in range(nreg) if regchars[x]])
+                hops.append({"h": "op", "op": {"op": "adddesc", "i": i, "j": rng.randrange(regchars[i]), "desc": rand_ddef(rng)}})
             elif o == "delchar":
                 i = rng.choice([x for x in range(nreg) if regchars[x]])
                 hops.append({"h": "op", "op": {"op": "delchar", "i": i, "j": rng.randrange(regchars[i])}}); regchars[i] -= 1
@@ -502,6 +515,8 @@ def c_op(op):
         return "(OpAddChar %s %s)" % (cnat(op["i"]), c_cdef(op["char"]))
     if o == "delchar":
         return "(OpDelChar %s %s)" % (cnat(op["i"]), cnat(op["j"]))
+    if o == "adddesc":
+        return "(OpAddDesc %s %s %s)" % (cnat(op["i"]), cnat(op["j"]), c_ddef(op["desc"]))
     return "(OpRemove %s)" % cnat(op["i"])
 
 
@@ -867,6 +882,24 @@ def oracle(ctx, case, res, tag):
             n += ctx.violation("building a second instance (start handle %d) changed the first one%s" % (
                                a["start"], (": attribute registered at %d now carries handle %d" % tuple(stale[0])) if stale else " (fields / export differ)"), small,
                                expected="first instance untouched", observed={"first_now": a["first_light"], "first_before": res["steps"][0]})
+            return n
+    # the service OBJECT right after add_characteristic / remove_characteristic on a registered service,
+    # before update_service re-registers it: its own handles must already be laid out consistently
+    for k, (what, lay) in sorted(res.get("mid", {}).items(), key=lambda kv: int(kv[0])):
+        want, bad = lay["handle"] + 1, None
+        for ih in lay["incs"]:
+            if ih != want:
+                bad = "include definition at %d, expected %d" % (ih, want)
+            want += 1
+        for ch, vh, ce, ds in lay["chars"]:
+            if bad is None and (ch != want or vh != ch + 1 or ds != list(range(ch + 2, ch + 2 + len(ds))) or ce != ch + 1 + len(ds)):
+                bad = "characteristic handles %r, expected a declaration at %d with value and descriptors right after" % ([ch, vh, ce, ds], want)
+            want = ch + 2 + len(ds)
+        if bad is None and lay["end"] != want - 1:
+            bad = "service end handle %d, last own attribute %d" % (lay["end"], want - 1)
+        if bad:
+            n += ctx.violation("service object inconsistent right after %s (step %s, before update_service): %s" % (what, k, bad), small,
+                               expected="handles of the service object laid out contiguously from its own handle", observed=lay)
             return n
     for k, light in enumerate(res["steps"]):
         bad, gaps = check_layout(case["start"], light, shapes_hist[k], not removed_hist[k])
